@@ -72,7 +72,7 @@ def model_check(ctx):
         product_check(ctx, ("MC_Backtest_deep.cfg", ()), [("MC_Backtest_deep_r1.cfg", ()), ("MC_Backtest_deep_r2.cfg", ())], coverage=False)
         product_check(ctx, ("MC_Backtest_full.cfg", ()), [("MC_Backtest_full_r1.cfg", NO_SD), ("MC_Backtest_full_r2.cfg", ())], coverage=False)
         ctx.tlc_mc("MC_" + MODULE, "MC_Backtest_full_r3.cfg", timeout=900, ignore_uncovered=NO_DISC)
-        ctx.tlc_mc("MC_" + MODULE, "MC_Backtest_full_r4.cfg", timeout=900)
+        ctx.tlc_mc("MC_" + MODULE, "MC_Backtest_full_r4.cfg", timeout=900, ignore_uncovered=NO_SD)
 
 
 # ------------------------------------------------------------------------------- scenarios
